@@ -46,6 +46,10 @@ type SThread struct {
 type smutex struct {
 	writer  int // thread id holding the write lock, -1 none
 	readers map[int]int
+	// pendingW: threads blocked in Lock. As in sync.RWMutex, a pending writer
+	// excludes new readers (also a reader that already holds a read lock and
+	// asks again: the documented recursive-read-lock deadlock).
+	pendingW map[int]bool
 	relVC   []int // clock of the last write release
 	rdVC    []int // join of the clocks of read releases since the last write acquire
 }
@@ -112,7 +116,7 @@ func (s *Sched) enabled(t *SThread) bool {
 	}
 	m := s.mutexes[t.blocked]
 	if t.wantR {
-		return m.writer < 0
+		return m.writer < 0 && len(m.pendingW) == 0
 	}
 	return m.writer < 0 && len(m.readers) == 0
 }
@@ -229,7 +233,7 @@ func (t *SThread) OpEnd() int {
 func (s *Sched) mutex(m any) *smutex {
 	x := s.mutexes[m]
 	if x == nil {
-		x = &smutex{writer: -1, readers: map[int]int{}, relVC: make([]int, len(s.threads)), rdVC: make([]int, len(s.threads))}
+		x = &smutex{writer: -1, readers: map[int]int{}, pendingW: map[int]bool{}, relVC: make([]int, len(s.threads)), rdVC: make([]int, len(s.threads))}
 		s.mutexes[m] = x
 	}
 	return x
@@ -253,9 +257,11 @@ func (s *Sched) Lock(m any) {
 			// self-deadlock: stays blocked forever
 		}
 		t.blocked, t.wantR = m, false
+		x.pendingW[t.ID] = true
 		t.Point()
 		t.blocked = nil
 	}
+	delete(x.pendingW, t.ID)
 	x.writer = t.ID
 	join(t.vc, x.relVC)
 	join(t.vc, x.rdVC)
@@ -282,7 +288,7 @@ func (s *Sched) RLock(m any) {
 	t := s.Cur()
 	t.Point()
 	x := s.mutex(m)
-	for x.writer >= 0 {
+	for x.writer >= 0 || len(x.pendingW) > 0 {
 		t.blocked, t.wantR = m, true
 		t.Point()
 		t.blocked = nil
